@@ -109,14 +109,14 @@ Fixpoint atomic (f : filter) : bool :=
   | FCmp _ _ _ | FIsNull _ => true
   | FAnd l | FOr l => forallb atomic l && Nat.leb 2 (length l)
   | FNot g => atomic g
-  | FHas _ _ vs => Nat.eqb (length vs) 1
+  | FHas _ _ vs => Nat.leb 1 (length vs)
   end.
 Fixpoint depth (f : filter) : nat :=
   match f with
   | FCmp _ _ _ | FIsNull _ => 1
   | FAnd l | FOr l => S (fold_right (fun g m => Nat.max (depth g) m) O l)
   | FNot g => depth g
-  | FHas _ _ _ => O
+  | FHas _ _ vs => if Nat.leb 2 (length vs) then 1%nat else O
   end.
 Definition atom_of (f : filter) : sexpr := match flat_of f with [[a]] => a | _ => SLit VNull end.
 Definition T (f : filter) : list stok := snd (gen_filter f).
@@ -236,7 +236,7 @@ Lemma atomic_flat : forall g, atomic g = true -> flat_of g = [[atom_of g]].
 Proof.
   induction g as [o a b|c|l IH|l IH|g IH|all c vs] using filter_ind'; intros Ha; try reflexivity.
   - cbn [atomic] in Ha. specialize (IH Ha). unfold atom_of. cbn [flat_of]. rewrite IH. reflexivity.
-  - cbn [atomic] in Ha. destruct vs as [|v [|v2 vs]]; try discriminate. destruct all; reflexivity.
+  - cbn [atomic] in Ha. destruct vs as [|v [|v2 vs]]; [discriminate| |reflexivity]. destruct all; reflexivity.
 Qed.
 
 Lemma fold_join_atoms : forall l, l <> [] -> Forall (fun g => flat_of g = [[atom_of g]]) l ->
@@ -291,6 +291,35 @@ Proof. split; reflexivity. Qed.
 Lemma max_le_all : forall l n, (fold_right (fun g m => Nat.max (depth g) m) O l <= n)%nat -> Forall (fun g => (depth g <= n)%nat) l.
 Proof. induction l as [|g l IH]; intros n H; constructor; cbn [fold_right] in H; [lia|apply IH; lia]. Qed.
 
+Lemma spec_has1 n all c v : Spec n (FHas all c [v]).
+Proof. intros k rest Hk Hs. destruct k as [|k]; [lia|]. destruct all; reflexivity. Qed.
+
+Definition has_word (all : bool) : string := if all then "AND"%string else "OR"%string.
+Lemma T_has all c v v2 vs :
+  T (FHas all c (v :: v2 :: vs)) =
+  TOp [40] :: T (FHas all c [v]) ++ chain (has_word all) (List.map (fun x => FHas all c [x]) (v2 :: vs)) ++ [TOp [41]].
+Proof.
+  unfold T at 1. cbn [gen_filter length Nat.leb]. cbn [oapp snd fx app List.map]. rewrite snd_ojoin_cons.
+  assert (E : forall l, flat_map (fun y => snd (if all then fx " AND " [Wd "AND"] else fx " OR " [Wd "OR"]) ++ snd y) (List.map (gen_pos c) l)
+                        = chain (has_word all) (List.map (fun x => FHas all c [x]) l)).
+  { induction l as [|x l IH]; [reflexivity|]. cbn [List.map flat_map chain]. fold (chain (has_word all) (List.map (fun x0 => FHas all c [x0]) l)).
+    rewrite IH. destruct all; reflexivity. }
+  change (gen_pos c v2 :: List.map (gen_pos c) vs) with (List.map (gen_pos c) (v2 :: vs)).
+  rewrite E. unfold T. cbn [gen_filter length Nat.leb List.map ojoin]. now rewrite <- app_assoc.
+Qed.
+Lemma atom_has all c v v2 vs :
+  atom_of (FHas all c (v :: v2 :: vs)) =
+  fold_left (if all then SAnd else SOr) (List.map atom_of (List.map (fun x => FHas all c [x]) (v2 :: vs))) (atom_of (FHas all c [v])).
+Proof.
+  unfold atom_of at 1. cbn [flat_of length Nat.leb]. rewrite map_map. destruct all; [reflexivity|].
+  assert (E : forall l e, fold_left (fun e c' => SOr e (conj_expr c')) (List.map (fun x => [pos_gt0 c x]) l) e
+                          = fold_left SOr (List.map (fun x => atom_of (FHas false c [x])) l) e).
+  { induction l as [|x l IH]; intros e; [reflexivity|]. cbn [List.map fold_left]. rewrite IH. reflexivity. }
+  change (flat_expr (List.map (fun v0 => [pos_gt0 c v0]) (v :: v2 :: vs)))
+    with (fold_left (fun e c' => SOr e (conj_expr c')) (List.map (fun x => [pos_gt0 c x]) (v2 :: vs)) (conj_expr [pos_gt0 c v])).
+  rewrite E. reflexivity.
+Qed.
+
 Lemma spec_all : forall g, atomic g = true -> forall n, (depth g <= n)%nat -> Spec n g.
 Proof.
   induction g as [o a b|c|l IH|l IH|g IH|all c vs] using filter_ind'; intros Ha n Hn k rest Hk Hs.
@@ -342,9 +371,18 @@ Proof.
     rewrite ET in *. cbn [q_not]. change (is_word (TWord (s2l "NOT")) "NOT") with true. cbv iota.
     rewrite (IH Ha n Hn k rest); [|cbn [length] in Hk; lia|exact Hs].
     unfold atom_of. cbn [flat_of]. rewrite (atomic_flat g Ha). reflexivity.
-  - (* HAS with one value *)
-    cbn [atomic] in Ha. destruct vs as [|v [|v2 vs]]; try discriminate. destruct k as [|k]; [lia|].
-    destruct all; reflexivity.
+  - (* HAS / HASALL *)
+    cbn [atomic] in Ha. destruct vs as [|v [|v2 vs]]; [discriminate|apply spec_has1; assumption|].
+    destruct n as [|n]; [cbn in Hn; lia|]. destruct k as [|k]; [lia|].
+    assert (HS : Forall (Spec n) (List.map (fun x => FHas all c [x]) (v2 :: vs))).
+    { apply Forall_map, Forall_forall. intros x _. apply spec_has1. }
+    rewrite T_has, atom_has. cbn [app q_not]. change (is_word (TOp [40]) "NOT") with false. cbv iota.
+    rewrite <- !app_assoc. cbn [app].
+    apply q_cmp_done; [|exact Hs]. rewrite app_assoc. apply q_primary_paren. rewrite <- app_assoc.
+    cbn [q_or]. unfold q_or_body. destruct all; cbn [has_word].
+    + rewrite (q_and_chain n (FHas true c [v]) _ (TOp [41] :: rest) (spec_has1 n true c v) HS); [reflexivity|reflexivity|apply stop_rp].
+    + rewrite (q_and_atom n (FHas false c [v]) _ (spec_has1 n false c v)); [|reflexivity|apply stop_chain; [right; reflexivity|apply stop_rp]].
+      apply ort_chain; try assumption; try reflexivity; [apply stop_rp|lia].
 Qed.
 
 (* ---------------------------------------------------------------- the whole WHERE clause *)
@@ -373,7 +411,7 @@ Proof.
     change (chain "OR" (g :: l)) with (TWord (s2l "OR") :: T g ++ chain "OR" l) in H.
     cbn [depth length] in *. rewrite !app_length in *. cbn [length]. lia.
   - cbn [atomic depth] in *. specialize (IH Ha). change (T (FNot g)) with (TWord (s2l "NOT") :: T g). cbn [length]. lia.
-  - cbn. lia.
+  - cbn [depth]. destruct vs as [|v [|v2 vs]]; [cbn; lia|cbn; lia|]. rewrite T_has. cbn [length Nat.leb]. lia.
 Qed.
 
 Lemma len_in_chain w : forall l x, In x l -> (length (T x) <= length (chain w l))%nat.
@@ -420,7 +458,7 @@ Proof.
     rewrite forallb_forall in *. rewrite Forall_forall in IH. intros x Hx. apply (IH x Hx (Hall x Hx)).
   - destruct (IH Ha) as [H1 _]. rewrite H1, (atomic_flat g Ha). split; [reflexivity|].
     cbn [flat_of]. rewrite (atomic_flat g Ha). reflexivity.
-  - destruct vs as [|v [|v2 vs]]; try discriminate. split; [reflexivity|]. destruct all; reflexivity.
+  - split; [exact Ha|]. cbn [flat_of]. destruct vs as [|v [|v2 vs]]; [discriminate| |reflexivity]. destruct all; reflexivity.
 Qed.
 Lemma atomic_safe_where fs : fs <> [] -> forallb atomic fs = true -> safe_where fs = true.
 Proof.
@@ -436,3 +474,21 @@ Proof.
   intros Hne Ha Hok. exists (where_ast fs). split; [exact (where_text_parses fs Hne Ha Hok)|].
   intros r. exact (where_selects r fs (atomic_safe_where fs Hne Ha)).
 Qed.
+
+(* atomic is the documented well-formedness now that multi-value lists are parenthesised *)
+Lemma wf_atomic : forall f, wf f = true -> atomic f = true.
+Proof.
+  induction f as [o a b|c|l IH|l IH|g IH|all c vs] using filter_ind'; intros Hw; cbn [wf atomic] in *; try reflexivity; try assumption.
+  all: apply andb_true_iff in Hw as [Hall Hlen]; rewrite Hlen, andb_true_r; rewrite forallb_forall in *; rewrite Forall_forall in IH;
+    intros x Hx; apply (IH x Hx), Hall, Hx.
+Qed.
+Lemma wf_all_atomic fs : forallb wf fs = true -> forallb atomic fs = true.
+Proof. rewrite !forallb_forall. intros H x Hx. apply wf_atomic, H, Hx. Qed.
+
+Lemma where_text_parses_wf fs : fs <> [] -> forallb wf fs = true -> Forall filter_ok fs ->
+  parse_where2 (sql_lex (fst (gen_where fs))) = Some (where_ast fs).
+Proof. intros Hne Hw Hok. exact (where_text_parses fs Hne (wf_all_atomic fs Hw) Hok). Qed.
+Lemma text_meaning_wf fs : fs <> [] -> forallb wf fs = true -> Forall filter_ok fs ->
+  exists e, parse_where2 (sql_lex (fst (gen_where fs))) = Some e /\
+            forall r, sql_selects r e = forallb (selects r) fs.
+Proof. intros Hne Hw Hok. exact (text_meaning fs Hne (wf_all_atomic fs Hw) Hok). Qed.
